@@ -67,11 +67,22 @@ int main ()
     O.put (Jones<double>(a*cd)); O.put (Jones<double>(cd*a)); O.put (Jones<double>(a/cd)); };
   // quaternions
   OP("mp.quat") { float a0=A.f(), a1=A.f(), a2=A.f(), a3=A.f(); double b0=A.d(), b1=A.d(), b2=A.d(), b3=A.d(); Quaternion<float,U> a (a0,a1,a2,a3); Quaternion<double,U> b (b0,b1,b2,b3); Quaternion<double,U> ad ((double) a0, (double) a1, (double) a2, (double) a3);
+    // cross-type assignment (double <- float) and the compound product float *= double (promoted product stored back in float)
+    Quaternion<double,U> asg; asg = a; Quaternion<float,U> acc = a; acc *= b; Quaternion<float,U> acc2 = a; acc2 += b;
+    O.put (asg); O.put (Quaternion<double,U>((double) acc.s0, (double) acc.s1, (double) acc.s2, (double) acc.s3));
+    O.put (Quaternion<double,U>((double) acc2.s0, (double) acc2.s1, (double) acc2.s2, (double) acc2.s3));
     O.put (Quaternion<double,U>(a)); O.put (Quaternion<double,U>(a+b)); O.put (Quaternion<double,U>(a-b)); O.put (Quaternion<double,U>(a*b)); O.put (Quaternion<double,U>(b*a));
+    { Quaternion<double,U> pr = ad*b; Quaternion<double,U> sm = ad+b;
+      O.put (ad); O.put (Quaternion<double,U>((double)(float) pr.s0, (double)(float) pr.s1, (double)(float) pr.s2, (double)(float) pr.s3));
+      O.put (Quaternion<double,U>((double)(float) sm.s0, (double)(float) sm.s1, (double)(float) sm.s2, (double)(float) sm.s3)); }
     O.put (ad); O.put (Quaternion<double,U>(ad+b)); O.put (Quaternion<double,U>(ad-b)); O.put (Quaternion<double,U>(ad*b)); O.put (Quaternion<double,U>(b*ad)); };
   OP("mp.biquat") { std::complex<float> a0=A.cf(), a1=A.cf(), a2=A.cf(), a3=A.cf(); std::complex<double> b0=A.cd(), b1=A.cd(), b2=A.cd(), b3=A.cd();
     Quaternion<std::complex<float>,H> a (a0,a1,a2,a3); Quaternion<std::complex<double>,H> b (b0,b1,b2,b3); Quaternion<std::complex<double>,H> ad (cdbl (a0), cdbl (a1), cdbl (a2), cdbl (a3));
+    { Quaternion<double,H> rq (b0.real(), b1.real(), b2.real(), b3.real()); Quaternion<std::complex<double>,H> fromreal; fromreal = rq; O.put (fromreal);
+      Quaternion<std::complex<double>,H> asg; asg = a; O.put (asg); }
     O.put (Quaternion<std::complex<double>,H>(a)); O.put (Quaternion<std::complex<double>,H>(a*b)); O.put (Quaternion<std::complex<double>,H>(b*a));
+    O.put (Quaternion<std::complex<double>,H>(std::complex<double>(b0.real(),0), std::complex<double>(b1.real(),0), std::complex<double>(b2.real(),0), std::complex<double>(b3.real(),0)));
+    O.put (ad);
     O.put (ad); O.put (Quaternion<std::complex<double>,H>(ad*b)); O.put (Quaternion<std::complex<double>,H>(b*ad)); };
   // Minkowski forms
   OP("mp.minkowski") { Vector<4,float> a; for (unsigned i=0;i<4;i++) a[i]=A.f(); Vector<4,double> b; for (unsigned i=0;i<4;i++) b[i]=A.d();
